@@ -185,8 +185,13 @@ def run(ctx):
     # through the outermost record, strictly below it, below an envelope, one record or several) or only through unions / arrays / maps
     import p_C07
     for _ in range(ntexts // 3):
-        if rng.random() < 0.7:
+        r = rng.random()
+        if r < 0.4:
             doc, _unc = D.cycle_doc(rng)
+        elif r < 0.7:
+            # the same with the definitions in any arrangement (nested, siblings defined before or after their uses)
+            nodes, _unc = D.cycle_graph(rng)
+            doc = D.DocGen(rng, nodes, forward=rng.choice([0.0, 0.5, 0.9]), sibling_defs=rng.random() < 0.4).gen(0, None)
         else:
             nodes = G.SchemaGen(rng, max_nodes=rng.choice([2, 6]), max_depth=3, namespaces=("", "a")).build()
             inv = None
@@ -229,5 +234,5 @@ def run(ctx):
                     "death or timeout is a result); every frozen schema is then used on hostile bytes (small limits) and arbitrary presentations; "
                     "texts: random JSON of schema-like shape, valid documents damaged at the text level, nesting 1..5000 (127/128/129 around "
                     "serde_json's limit), the nested-shared-record family up to depth 60 (cycle check cost), records containing themselves (unconditionally = error, or only through "
-                    "unions / arrays / maps = accepted; cycle through the outermost record or strictly below it, several records, envelopes, namespaces); model vs crate wherever the text has an AST",
+                    "unions / arrays / maps = accepted; cycle through the outermost record or strictly below it, several records, envelopes, namespaces, definitions nested or side by side with backward / forward references); model vs crate wherever the text has an AST",
             "samples": samples, "violations": violations, "model_diffs": diffs, "distribution": dict(dist)}
